@@ -182,6 +182,13 @@ func (a *Affiliation) computeTriggersForCastingSites(pass *analysishelper.Enhanc
 					// e.g., v, ok := i.(*S)
 					lhsType := pass.TypesInfo.TypeOf(node.X)
 					rhsType := pass.TypesInfo.TypeOf(node.Type)
+					if rhsType != nil {
+						if _, ok := rhsType.Underlying().(*types.Interface); ok {
+							// e.g., v, ok := j.(I), where I is also an interface: the value flows from its
+							// static interface type J to I, i.e., here J plays the role of the implementation
+							lhsType, rhsType = rhsType, lhsType
+						}
+					}
 					appendTypeToTypeTriggers(lhsType, rhsType)
 
 				case *ast.ReturnStmt:
